@@ -191,8 +191,10 @@ def cases(tier, seed):
             continue
         if len(r.transitions) > MAX_TRANSITIONS[tier]:
             continue
+        n_topologies = len({t.topology for t in r.transitions})
         for al in aligns:
-            if al == "aa" and tier == "quick" and len(r.transitions) > 24:
+            if al == "aa" and tier == "quick" and len(r.transitions) > 24 and not (
+                    n_topologies == 2 and len(r.transitions) <= 48 and spec["outer"]["2"][1] == "0"):
                 continue
             out.append({"reaction": {"spec": spec}, "align": al, "seed": seed})
     for name, aligns in CATALOGUE.items():
@@ -252,6 +254,8 @@ def eval_case(case):
     region = known_region(reaction0)
     if align.startswith("dpd") and len({t.topology for t in reaction0.transitions}) > 1:
         region = [*region, "dpd-alignment-with-several-topologies"]
+    if align == "aa" and len({t.topology for t in reaction0.transitions}) > 1:
+        region = [*region, "axis-angle-alignment-with-several-topologies"]
     builder, reaction = make_builder(reaction0, align, "none")
     model = builder.formulate()
     runner = ModelRunner(model)
